@@ -74,7 +74,10 @@ def evaluate(sid, opts):
         pkgs = sorted(set(filter(None, (infer_pkg(x) for x in demos))))
         pkg = pkgs[0] if pkgs else None
         conf = {"repo_head": repo_head}
-        demo_cmd = "go test -vet=off -count=1 -run '%s' ./%s/" % (DEMO_RE, pkg)
+        flags = ""
+        if os.path.exists(os.path.join(d, "demo_flags")):
+            flags = open(os.path.join(d, "demo_flags")).read().strip() + " "
+        demo_cmd = "go test %s-vet=off -count=1 -run '%s' ./%s/" % (flags, DEMO_RE, pkg)
         for x in demos:
             shutil.copy(x, os.path.join(w, pkg))
         rc, _ = sh(demo_cmd, cwd=w, timeout=3000, out=os.path.join(d, "demo_without.log"))
@@ -99,6 +102,20 @@ def evaluate(sid, opts):
             rc, o = sh("go test -vet=off -count=1 -timeout 25m ./... 2>&1 | grep -v 'no test files'", cwd=w,
                        timeout=3000, out=os.path.join(d, "suite_with_change.log"))
             bad = re.search(r"^(FAIL|--- FAIL|panic)", o, re.M) is not None
+            if bad:
+                # The shipped suite has tests that fail now and then on the unchanged tree as well
+                # (e.g. toolbox3d TestHeigthMapInterp, about 1 run in 300): re-run the failing packages.
+                pkgs_failed = sorted(set(re.findall(r"^FAIL\s+(github.com/\S+)", o, re.M)))
+                failed_tests = sorted(set(re.findall(r"^--- FAIL: (\S+)", o, re.M)))
+                still = False
+                for pf in pkgs_failed:
+                    for _ in range(2):
+                        rc2, o2 = sh("go test -vet=off -count=1 -timeout 25m " + pf, cwd=w, timeout=3000)
+                        if rc2 != 0:
+                            still = True
+                conf["suite_first_run_failed_tests"] = failed_tests
+                conf["suite_reruns_of_failed_packages"] = "failed again" if still else "passed twice"
+                bad = still or not pkgs_failed
             conf["suite_with_change"] = "FAIL" if bad else "ok"
             conf["suite_checked_at_repo"] = repo_head
             ran.append("(with change, demo removed) go test -vet=off -count=1 -timeout 25m ./... -> %s" % conf["suite_with_change"])
